@@ -357,6 +357,9 @@ def _unordered(ck: Checker) -> None:
             ok, why = False, f"consumed by {type(p).__name__}"
             if isinstance(p, ast.YieldFrom):
                 ok, why = True, "forwarded with yield from (rows keep their own key)"
+            elif isinstance(p, (ast.For, ast.comprehension)) and p.iter is c and isinstance(p.target, (ast.Tuple, ast.List)):
+                # consumed row by row, directly: each row is unpacked into its own (key, value) pair
+                ok, why = True, "consumed row by row (each row keeps its own pairing)"
             elif isinstance(p, ast.Call) and call_name(p) in ("list", "dict") and isinstance(parent(p), (ast.Assign, ast.AnnAssign)):
                 tgt = parent(p).targets[0] if isinstance(parent(p), ast.Assign) else parent(p).target
                 nm = norm(tgt)
